@@ -4,8 +4,9 @@ Does parsing of ETag-related headers: If-None-Matches, If-Matches
 Also If-Range parsing
 """
 
+import re
+
 from webob.datetime_utils import parse_date, serialize_date
-from webob.descriptors import _rx_etag
 from webob.util import header_docstring
 
 __all__ = ["AnyETag", "NoETag", "ETagMatcher", "IfRange", "etag_property"]
@@ -78,6 +79,11 @@ NoETag = _NoETag()
 
 # TODO: convert into a simple tuple
 
+# An entity-tag in a request header list.  RFC 7232 section 2.3: opaque-tag =
+# DQUOTE *etagc DQUOTE, where a backslash is an ordinary character that does
+# not escape the closing quote (unlike the quoted-string of RFC 2616).
+_rx_etag_list = re.compile(r'(?:^|[\s,])(W/)?"([^"]*)"')
+
 
 class ETagMatcher:
     def __init__(self, etags):
@@ -98,7 +104,7 @@ class ETagMatcher:
             return AnyETag
         if not value:
             return cls([])
-        matches = _rx_etag.findall(value)
+        matches = _rx_etag_list.findall(value)
         if not matches:
             return cls([value])
         elif strong:
